@@ -404,6 +404,9 @@ func (engine) Body(r *simdrv.Run) {
 	out := sim.Run()
 	r.Finish(out)
 	r.Res.NonTrivial = sim.Switches > 0 && len(sim.TaskNames()) >= 2
+	if r.Res.Outcome == "harness-panic" {
+		return // the simulator lost track of the system: reported as harness trouble, never as a violation
+	}
 	switch out.Kind {
 	case simrt.Budget:
 		return
